@@ -1128,6 +1128,172 @@ def properties_back_scan(repo):
     return sorted(set(out))
 
 
+# ---------------------------------------------------------------------------------------------------------------
+# search: a concrete input that drives the parser through a given production (used when a production fails the check)
+# ---------------------------------------------------------------------------------------------------------------
+
+def token_lexemes(repo):
+    """token name -> a lexeme, from the literal rules of lexer.l and the keyword table of keywords.cpp"""
+    lex = {}
+    src = open(os.path.join(repo, "src", "lexer.l")).read()
+    for m in re.finditer(r'^"((?:\\.|[^"\\])+)"\s*\{\s*return\s+([A-Za-z_0-9\']+|\'\\?.\')\s*;\s*\}', src, re.M):
+        text = m.group(1).replace('\\"', '"').replace("\\\\", "\\")
+        lex.setdefault(m.group(2), text)
+    kw = open(os.path.join(repo, "src", "keywords.cpp")).read()
+    for m in re.finditer(r'\{"([A-Za-z_0-9]+)",\s*Keyword\{(T_[A-Z_0-9]+)\s*,', kw):
+        lex.setdefault(m.group(2), m.group(1))
+    lex.update({"T_ID": "x", "T_NAT": "1", "T_FLOATING": "1.5", "T_CHARARR": '"a"', "T_TYPENAME": "int8_t", "T_POS_NEG_MAX": "2147483648",
+                "'\\n'": "\n", "'\\''": "'", "T_OLDCONST": "const", "T_ERROR": "@"})
+    return lex
+
+
+START_MODE = {   # start alternative (its syntax-switch token) -> (trace-harness mode, newxta)
+    "T_NEW": ("xta", 1), "T_NEW_DECLARATION": ("part:1", 1), "T_NEW_LOCAL_DECL": ("part:2", 1), "T_NEW_INST": ("part:3", 1),
+    "T_NEW_SYSTEM": ("part:4", 1), "T_NEW_PARAMETERS": ("part:5", 1), "T_NEW_INVARIANT": ("part:6", 1), "T_NEW_SELECT": ("part:8", 1),
+    "T_NEW_GUARD": ("part:9", 1), "T_NEW_SYNC": ("part:10", 1), "T_NEW_ASSIGN": ("part:11", 1), "T_PROBABILITY": ("part:16", 1),
+    "T_OLD": ("xta", 0), "T_OLD_DECLARATION": ("part:1", 0), "T_OLD_LOCAL_DECL": ("part:2", 0), "T_OLD_INST": ("part:3", 0),
+    "T_OLD_PARAMETERS": ("part:5", 0), "T_OLD_INVARIANT": ("part:6", 0), "T_OLD_GUARD": ("part:9", 0), "T_OLD_ASSIGN": ("part:11", 0),
+    "T_PROPERTY": ("prop", 1), "T_EXPRESSION": ("part:12", 1), "T_EXPRESSION_LIST": ("part:13", 1), "T_XTA_PROCESS": ("part:15", 1),
+    "T_EXPONENTIAL_RATE": ("part:7", 1), "T_MESSAGE": ("part:18", 1), "T_UPDATE": ("part:19", 1), "T_CONDITION": ("part:20", 1),
+    "T_INSTANCE_LINE": ("part:17", 1),
+}
+
+
+def witness_sentences(repo, prod_name, limit=12):
+    """Inputs (mode, newxta, text) whose parse uses production `prod_name` (for `abandon:X#k@d`: production X#k).
+    Shortest expansions; `error` symbols become a token the grammar cannot continue with."""
+    m = re.match(r"abandon:(.*)@\d+$", prod_name)
+    if m:
+        prod_name = m.group(1)
+    prods, nts, types, stats = read_grammar(repo)
+    lex = token_lexemes(repo)
+    ntset = set(nts)
+    by_lhs = {}
+    for p in prods:
+        by_lhs.setdefault(p.lhs, []).append(p)
+    target = [p for p in prods if p.name == prod_name]
+    if not target:
+        return []
+    target = target[0]
+
+    def toks(p, expand):
+        out = []
+        for sym in p.syms:
+            if sym == "$@":
+                continue
+            if sym == "error":
+                out.append(None)
+            elif sym in ntset:
+                e = expand(sym)
+                if e is None:
+                    return None
+                out += e
+            else:
+                if sym not in lex:
+                    return None
+                out.append(lex[sym])
+        return out
+
+    # shortest terminal expansion of every nonterminal (error-free productions only)
+    best = {}
+    changed = True
+    while changed:
+        changed = False
+        for p in prods:
+            if p.has_error:
+                continue
+            e = toks(p, lambda n: best.get(n))
+            if e is not None and (p.lhs not in best or len(e) < len(best[p.lhs])):
+                best[p.lhs] = e
+                changed = True
+    # shortest context: Uppaal alternative ... lhs(target) ... ; BFS over "nonterminal occurs in production"
+    ctx = {}       # nt -> (prefix tokens, suffix tokens, start token) with the shortest total length
+    for p in by_lhs["Uppaal"]:
+        pass
+    frontier = []
+    for p in by_lhs["Uppaal"]:
+        if p.has_error or not p.syms or p.syms[0] not in START_MODE:
+            continue
+        for i, sym in enumerate(p.syms):
+            if sym in ntset:
+                pre = toks_list(p.syms[1:i], best, lex, ntset)
+                suf = toks_list(p.syms[i + 1:], best, lex, ntset)
+                if pre is None or suf is None:
+                    continue
+                cand = (pre, suf, p.syms[0])
+                if sym not in ctx or len(pre) + len(suf) < len(ctx[sym][0]) + len(ctx[sym][1]):
+                    ctx[sym] = cand
+                    frontier.append(sym)
+    while frontier:
+        nt = frontier.pop(0)
+        pre0, suf0, st = ctx[nt]
+        for p in by_lhs.get(nt, []):
+            if p.has_error:
+                continue
+            for i, sym in enumerate(p.syms):
+                if sym in ntset:
+                    pre = toks_list(p.syms[:i], best, lex, ntset)
+                    suf = toks_list(p.syms[i + 1:], best, lex, ntset)
+                    if pre is None or suf is None:
+                        continue
+                    cand = (pre0 + pre, suf + suf0, st)
+                    if sym not in ctx or len(cand[0]) + len(cand[1]) < len(ctx[sym][0]) + len(ctx[sym][1]):
+                        ctx[sym] = cand
+                        frontier.append(sym)
+    if target.lhs == "Uppaal":
+        if not target.syms or target.syms[0] not in START_MODE:
+            return []
+        bodies = [toks_list(target.syms[1:], best, lex, ntset, err=j) for j in ("@", ")", "", "}")]
+        mode, nx = START_MODE[target.syms[0]]
+        return [(mode, nx, " ".join(b)) for b in bodies if b is not None][:limit]
+    if target.lhs not in ctx:
+        return []
+    pre, suf, st = ctx[target.lhs]
+    mode, nx = START_MODE[st]
+    out = []
+    for junk in ("@", ")", "", "}", ";", "1 1"):
+        body = toks_list(target.syms, best, lex, ntset, err=junk)
+        if body is None:
+            continue
+        text = " ".join(pre + body + suf)
+        if (mode, nx, text) not in out:
+            out.append((mode, nx, text))
+    # variants: the nonterminals of the target expanded by *every* production once (covers count > 0, nested forms)
+    for i, sym in enumerate(target.syms):
+        if sym in ntset:
+            for q in by_lhs[sym][:8]:
+                if q.has_error:
+                    continue
+                sub = toks_list(q.syms, best, lex, ntset)
+                a = toks_list(target.syms[:i], best, lex, ntset, err="@")
+                b = toks_list(target.syms[i + 1:], best, lex, ntset, err="@")
+                if sub is None or a is None or b is None:
+                    continue
+                text = " ".join(pre + a + sub + b + suf)
+                if (mode, nx, text) not in out:
+                    out.append((mode, nx, text))
+    return out[:limit]
+
+
+def toks_list(syms, best, lex, ntset, err="@"):
+    out = []
+    for sym in syms:
+        if sym == "$@":
+            continue
+        if sym == "error":
+            if err:
+                out.append(err)
+        elif sym in ntset:
+            if sym not in best:
+                return None
+            out += best[sym]
+        else:
+            if sym not in lex:
+                return None
+            out.append(lex[sym])
+    return out
+
+
 def source_need_scan(repo):
     """Tie for the `need` column: largest literal index used on each stack inside each builder callback body
     (fragments[k] -> k+1, fragments.pop(k) -> k, typeFragments[k] -> k+1).  Returns {callback: {'F': n, 'T': n}}."""
